@@ -8,7 +8,7 @@ import itertools
 import json
 import re
 
-from .. import core, enum, outparse, probes
+from .. import core, enum, hostile, outparse, probes
 
 ID = 'C04'
 RULE = ('inline: every payload up to the bound over the 26-symbol punctuation alphabet, encoded in three ways (all specials escaped / balanced braces bare / every character escaped), '
@@ -110,7 +110,7 @@ class Mon:
     def __init__(self, ctx):
         import emmet
         self.ctx = ctx
-        self.expand = emmet.expand
+        self.expand = hostile.wrap(emmet.expand, ctx)
 
     def inline(self, p, enc, ti, cls):
         ctx = self.ctx
@@ -169,7 +169,7 @@ class Mon:
             ctx.violation('wrap-copies', case, {'output': r[1][:400], 'expected_tags': es[:30], 'actual_tags': as_[:30]})
             return
         ctx.mon('oracle:wrap-lines')
-        if isinstance(text, str):
+        if isinstance(text, str) or abbr in LOOSE_SHAPES:
             # a single string is compared modulo blanks (the statement speaks of lines; how a string is trimmed is not defined)
             def loose(st):
                 return [[x[0], ''.join(x[1].split())] if x[0] == 'text' else
@@ -297,6 +297,9 @@ SHAPES = [
     ('x-d', plain(lambda t: el('x-d', T(t)))),
     ('x-u>x-l+x-m', plain(lambda t: el('x-u', el('x-l', []) + el('x-m', T(t))))),
     ('x-u>(x-l>x-b)+x-m>x-n', plain(lambda t: el('x-u', el('x-l', el('x-b', [])) + el('x-m', el('x-n', T(t)))))),
+    # a placeholder but NO implicit repeater: the whole text, once, in the deepest last element (which is where the placeholder stands)
+    ('x-d>x-p{$#}', plain(lambda t: el('x-d', el('x-p', T(t))))),
+    ('x-d>x-q+x-p{$#}', plain(lambda t: el('x-d', el('x-q', []) + el('x-p', T(t))))),
 ]
 # a placeholder in the place of an attribute NAME: the line is the name, with whatever punctuation it carries (`a.` is not "boolean a", `!b` is not "implied b")
 NAME_SHAPES = [
@@ -313,6 +316,8 @@ ALIAS_SHAPES = [
     ('x-p>vrow', plain(lambda t: el('x-p', el('x-r', el('x-d', T(t))))), ALIAS_TABLE),
     ('vtwo*', implicit(lambda l, i: el('x-m', []) + el('x-n', el('x-o', T(l)))), ALIAS_TABLE),
 ]
+# how blank lines around the text are trimmed at a placeholder outside any repeater is not defined: compared modulo blanks
+LOOSE_SHAPES = {'x-d>x-p{$#}', 'x-d>x-q+x-p{$#}'}
 NAME_LINES = ['a', 'a.', '!b', 'c.d', 'k!', 'e.f.', '!g.', 'data-x', 'x:y', 'h..']
 LINES = ['a', '', '  b  ', 'ul>li*3', '$#', '${1}', 'item $', '*', '{x}', '[a=b]', ' ', 'x y z', 'é ü', 'a\\b', '(c)+d^e', '$$@-3', '"q"', "it's", 'a{b}c',
          '\\{', '}', '.cls#id', 'lorem10', 'a*', '$', 'p>{t}', '@', '100%', '1. first', '- second', '\t tab', 'x/', '!', 'a:b=c']
